@@ -4,6 +4,7 @@ package server
 
 import (
 	"sort"
+	"time"
 
 	"github.com/tidwall/redcon"
 )
@@ -24,11 +25,19 @@ func (s *Server) VerifCommands() []string {
 	return out
 }
 
-// VerifCloseListener closes the RESP listener while everything else keeps
-// running: the member stays in the member list but cannot be reached.
+// VerifCloseListener makes the member unreachable over RESP while everything
+// else (membership gossip, its own outgoing client, its services) keeps running:
+// the listener and every accepted connection are closed.
 func (s *Server) VerifCloseListener() error {
-	if s.listener == nil {
+	if s.server == nil {
 		return nil
 	}
-	return s.listener.Close()
+	err := s.server.Close()
+	// redcon closes the accepted connections from its serve loop after the listener
+	// failed: wait until ListenAndServe has returned
+	select {
+	case <-s.stopped:
+	case <-time.After(5 * time.Second):
+	}
+	return err
 }
